@@ -207,6 +207,45 @@ def oracle(payload):
                         break
                 if stop:
                     break
+            # (f) skin-effect loads on SOME of the objects: every pulse carries, summed over the loads it is attached to, the closed
+            #     form times the length of loaded conductor it represents (a junction pulse half of whose conductor is loaded: that half)
+            tags = [g.tag for g in mA.geo]
+            import itertools
+            subsets = [rng.sample(tags, rng.randint(1, len(tags)))]
+            if case.get('probe'):
+                subsets = [list(c) for n_ in range(1, len(tags) + 1) for c in itertools.combinations(tags, n_)]
+            omg = 2 * math.pi * f * 1e6
+            k = cmath.sqrt(-1j * omg * MU0 * sg)
+            for sub in subsets:
+                sp = copy.deepcopy(spec); sp['loads'] = [dict(kind='skin', tag=t, cond=sg) for t in sub]
+                mK = None
+                try:
+                    argv = gen.to_argv(sp, with_loads=False) + ['--skin-effect-conductivity=%r,%d' % (sg, t) for t in sub]
+                    from mininec.mininec import main as _main
+                    import io as _io
+                    mK = _main(argv, f_err=_io.StringIO(), return_mininec=True)
+                    if isinstance(mK, int): mK = None
+                except ValueError:
+                    mK = None
+                if mK is None:
+                    mK = gen.build(sp)
+                for p in mK.pulses:
+                    want = 0j
+                    for i in (0, 1):
+                        g = p.segs[i].geobj
+                        if g.tag not in sub or p.ground[i]:
+                            continue
+                        kr = k * g.r_orig
+                        bz = jv(0, kr) / jv(1, kr) if abs(kr) < 110 else 1j
+                        want += k / (2 * math.pi * g.r_orig * sg) * bz * p.segs[i].seg_len / 2
+                    got = 0j
+                    for l in mK.loads:
+                        for q in l.pulses:
+                            if q is p: got += l.impedance(f, p)
+                    if abs(got - want) > 1e-9 * max(abs(want), 1e-30):
+                        bad.append('skin loads on some objects: loaded %r: pulse %d (objects %d / %d) carries %r, closed form x loaded conductor length %r'
+                                   % (sorted(sub), p.idx, p.segs[0].geobj.tag, p.segs[1].geobj.tag, got, want))
+                        break
             r['bad'] = bad
         except Exception as e:
             r['error'] = exc_info(e)
